@@ -4,7 +4,7 @@
     (whole-template regex with python's priority order and "$", canonical check, fallback over all templates). *)
 From Coq Require Import List String Ascii.
 From Spil Require Import Base.Str Base.Dict Base.Outcome Regex.Re Regex.MatchProofs Resolva.Resolver
-  Conf.Conf Conf.WF Sid.Sid Sid.TypingSpec Sid.TypingProofs.
+  Conf.Conf Conf.WF Sid.Sid Sid.TypingSpec Sid.TypingProofs Sid.SidProofs.
 From SpilGen Require Hamlet.
 Import ListNotations.
 Local Open Scope string_scope.
@@ -25,6 +25,33 @@ Print Assumptions C01_forced.
 Theorem C01_seg_ok_is_membership : forall r seg, seg_ok r seg = true <-> exists c, Matches r seg c.
 Proof. exact match_full_iff. Qed.
 Print Assumptions C01_seg_ok_is_membership.
+
+(* the factory: Sid(s) for a plain string (no ":" and no "?"; strings with "?" are C04's subject) *)
+Theorem C01_plain : forall c Ld, load c = Some Ld -> wf_loadedb Ld = true ->
+  forall s, mem_c "?" s = false -> mem_c ":" s = false ->
+  Sid Ld s = Ok (typed_or_untyped s (natural Ld s)).
+Proof. exact Sid_plain. Qed.
+Print Assumptions C01_plain.
+
+(* a uri: the part before the first ":" forces the type (an empty prefix means natural typing); the Sid's string is the body *)
+Theorem C01_uri : forall c Ld, load c = Some Ld -> wf_loadedb Ld = true ->
+  forall ty body, mem_c "?" body = false -> mem_c ":" ty = false -> mem_c "?" ty = false ->
+  Sid Ld (ty ++ ":" ++ body) = Ok (typed_or_untyped body (if sempty ty then natural Ld body else forced Ld ty body)).
+Proof. exact Sid_uri. Qed.
+Print Assumptions C01_uri.
+
+(* creating a Sid from any string (without query) never fails *)
+Theorem C01_total : forall c Ld, load c = Some Ld -> wf_loadedb Ld = true ->
+  forall s, mem_c "?" s = false -> exists x, Sid Ld s = Ok x.
+Proof. exact Sid_total. Qed.
+Print Assumptions C01_total.
+
+(* the untyped Sid: False, empty type, no fields, length 0, string verbatim *)
+Theorem C01_untyped_obs : forall c Ld s, load c = Some Ld -> wf_loadedb Ld = true ->
+  let x := mkSid s "" [] in
+  sid_bool x = false /\ sid_len x = 0 /\ s_type x = "" /\ s_fields x = [] /\ s_string x = s.
+Proof. exact untyped_obs. Qed.
+Print Assumptions C01_untyped_obs.
 
 (* instance: today's configuration (regenerated from /repo on this run) loads and is well-formed, so the theorem applies to it *)
 Theorem C01_instance : forall s, sid_to_dict Hamlet.the_loaded s "" = Ok (natural Hamlet.the_loaded s).
